@@ -167,3 +167,68 @@ Proof.
       rewrite orb_true_iff, andb_true_iff, Nat.eqb_eq, !Z.ltb_lt in E. tauto.
     + repeat split; vm_compute; reflexivity.
 Qed.
+
+(* unfolding lemmas (stated so that Props files need no conversion on computations) *)
+Lemma rx_defs :
+  rx_top = 1000%Z /\
+  rx_nd = sup_fit Z.ltb 0%Z rx_top rx_labels rx_w /\
+  rx_nd' = sup_fit Z.ltb 0%Z rx_top rx_labels' rx_w' /\
+  rx_w' = (fun p q => rx_w (rx_sigma p) (rx_sigma q)) /\
+  rx_labels' = map (fun p => nth (rx_sigma p) rx_labels 0) (seq 0 5).
+Proof.
+  unfold rx_top, rx_nd, rx_nd', rx_w', rx_labels'. repeat split; reflexivity.
+Qed.
+
+(* packaged statements for Props/C04.v and Props/C11_perm.v *)
+Lemma rx_example_premises :
+  tie_free 5 rx_w 0%Z rx_top /\ length rx_labels = 5 /\
+  (exists a b, a < 5 /\ b < 5 /\ nth a rx_labels 0 <> nth b rx_labels 0).
+Proof. exact (conj rx_tie_free (conj eq_refl rx_two_classes)). Qed.
+
+Lemma rx_example_result :
+  rx_top = 1000%Z /\ rx_nd = sup_fit Z.ltb 0%Z rx_top rx_labels rx_w /\
+  rx_nd = mkNodes [4; 4; 0; 0; 16]%Z [Some 1; Some 2; None; None; Some 3] [0; 0; 0; 1; 1]
+            [0; 0; 0; 1; 1] [false; false; true; true; false]
+            [false; false; false; false; false] [2; 3; 1; 0; 4] /\
+  n_plabel rx_nd = rx_labels /\
+  snd (predict_batch Z.ltb 0%Z rx_nd (map (train_row 0%Z rx_w) (seq 0 5))) = rx_labels.
+Proof.
+  exact (conj (proj1 rx_defs) (conj (proj1 (proj2 rx_defs))
+          (conj rx_fit (conj rx_labels_own rx_resubstitution)))).
+Qed.
+
+Lemma rx_perm_example_premises :
+  tie_free 5 rx_w 0%Z rx_top /\ length rx_labels = 5 /\
+  (exists a b, a < 5 /\ b < 5 /\ nth a rx_labels 0 <> nth b rx_labels 0) /\
+  map rx_sigma (seq 0 5) = [3; 0; 4; 1; 2] /\
+  ((forall x, x < 5 -> rx_sigma x < 5) /\ (forall x, x < 5 -> rx_sigma_inv x < 5) /\
+   (forall x, x < 5 -> rx_sigma_inv (rx_sigma x) = x) /\
+   (forall x, x < 5 -> rx_sigma (rx_sigma_inv x) = x)) /\
+  map rx_d (seq 0 5) = [9; 7; 3; 5; 21]%Z /\
+  ((forall s, s < 5 -> (0 <= rx_d s)%Z) /\
+   (forall s s', s < 5 -> s' < 5 -> s <> s' -> rx_d s <> rx_d s') /\
+   (forall s a b, s < 5 -> a < 5 -> b < 5 -> a <> b -> rx_d s <> rx_w a b)).
+Proof.
+  exact (conj rx_tie_free (conj eq_refl (conj rx_two_classes (conj eq_refl
+           (conj rx_perm_on (conj eq_refl rx_generic_query)))))).
+Qed.
+
+Lemma rx_perm_example_result :
+  (rx_top = 1000%Z /\
+   rx_nd = sup_fit Z.ltb 0%Z rx_top rx_labels rx_w /\
+   rx_nd' = sup_fit Z.ltb 0%Z rx_top rx_labels' rx_w' /\
+   rx_w' = (fun p q => rx_w (rx_sigma p) (rx_sigma q)) /\
+   rx_labels' = map (fun p => nth (rx_sigma p) rx_labels 0) (seq 0 5)) /\
+  (rx_labels' = [1; 0; 1; 0; 0] /\
+   rx_nd' = mkNodes [0; 4; 16; 4; 0]%Z [None; Some 3; Some 0; Some 4; None] [1; 0; 1; 0; 0]
+              [1; 0; 1; 0; 0] [true; false; false; false; true]
+              [false; false; false; false; false] [0; 4; 3; 1; 2]) /\
+  (map (fun p => nth (rx_sigma p) (n_status rx_nd) false) (seq 0 5) = n_status rx_nd' /\
+   map (fun p => nth (rx_sigma p) (n_cost rx_nd) 0%Z) (seq 0 5) = n_cost rx_nd' /\
+   map (fun p => nth (rx_sigma p) (n_plabel rx_nd) 0) (seq 0 5) = n_plabel rx_nd') /\
+  (predict_one Z.ltb 0%Z rx_nd rx_d = (0, Some 2) /\
+   predict_one Z.ltb 0%Z rx_nd' (fun p => rx_d (rx_sigma p)) = (0, Some 4) /\
+   rx_sigma 4 = 2).
+Proof.
+  exact (conj rx_defs (conj rx_fit_perm (conj rx_perm_conclusions rx_predictions))).
+Qed.
